@@ -76,7 +76,7 @@ fn main() {
             // A panic INSIDE a generator (not in the code under test, whose panics are caught per case and are outcomes)
             // must not kill the run for one unlucky seed: keep what was produced, continue with the advanced PRNG state.
             // More than 25 such panics means something systematic: the process then fails as before.
-            let known = ["fx", "wrapper", "bank", "curve", "integr", "tokenfee", "bankstate", "signer", "admin", "account", "fees", "tx", "bkr", "xfer", "ixf", "liqix", "cfgix", "liteix", "liq", "oracle", "health", "panic"];
+            let known = ["fx", "wrapper", "bank", "curve", "integr", "tokenfee", "bankstate", "signer", "admin", "account", "fees", "tx", "bkr", "xfer", "ixf", "liqix", "cfgix", "liteix", "liq", "oracle", "health", "panic", "venue"];
             if !known.contains(&fam) {
                 eprintln!("unknown family {}", fam);
                 std::process::exit(2);
@@ -108,6 +108,7 @@ fn main() {
                 "oracle" => fam_oracle::gen(&mut rng, want, &mut part),
                 "health" => fam_health::gen(&mut rng, want, &mut part),
                 "panic" => fam_panic::gen(&mut rng, want, &mut part),
+                "venue" => mon_kamino::gen(&mut rng, want, &mut part),
                     _ => unreachable!(),
                 }));
                 let produced = part.len();
